@@ -1,0 +1,93 @@
+//go:build verif
+
+// Machine-checked contracts (read by /verif/bin/fsv; comment-only, guarded by the verif tag).
+// C02: bounded attempts / stop conditions / final result; C13: delay envelope; C16: retry events.
+
+package retrypolicy
+
+//@ frozen config.BaseFailurePolicy, config.BaseDelayablePolicy, config.BaseAbortablePolicy, config.returnLastFailure, config.delayMin, config.delayMax, config.delayFactor, config.maxDelay, config.jitter, config.jitterFactor, config.maxDuration, config.maxRetries, config.onAbort, config.onRetry, config.onRetryScheduled, config.onRetriesExceeded
+//@ frozen retryPolicy.config, executor.BaseExecutor, executor.retryPolicy
+// Per-execution executor state: owned by the execution that created the executor (C14 confinement).
+//@ confined executor.failedAttempts, executor.retriesExceeded, executor.lastDelay
+
+// Environment (assumed): execution accessors are observers.
+//@ extfunc github.com/failsafe-go/failsafe-go.ExecutionAttempt.Retries
+//@   modifies nothing
+//@   ensures result >= 0
+//@ extfunc github.com/failsafe-go/failsafe-go.ExecutionAttempt.ElapsedTime
+//@   modifies nothing
+//@   ensures result >= 0
+//@ extfunc github.com/failsafe-go/failsafe-go/policy.ExecutionInternal.ElapsedTime
+//@   modifies nothing
+//@   ensures result >= 0
+
+// ---------------------------------------------------------------------------------------------
+// C13 -- delays
+
+//@ func (*executor).adjustForMaxDuration
+//@   requires e != nil && e.retryPolicy != nil && e.config != nil
+//@   requires delay >= -4611686018427387904 && delay <= 4611686018427387904 && elapsed >= 0 && elapsed <= 4611686018427387904 && e.maxDuration >= 0 && e.maxDuration <= 4611686018427387904
+//@   ensures [C13.maxduration.clamp] result == max(0, ite(e.maxDuration != 0, min(delay, e.maxDuration - elapsed), delay))
+//@   ensures [C13.maxduration.nonnegative] result >= 0 && (e.maxDuration != 0 ==> result <= max(0, e.maxDuration - elapsed))
+//@   modifies nothing
+
+// fixed delay / backoff: float32 arithmetic, bit-precise (64-bit vectors <-> Float32)
+//@ func (*executor).getFixedOrRandomDelay case backoff
+//@   mode bv64
+//@   requires e != nil && e.retryPolicy != nil && e.config != nil && e.BaseDelayablePolicy != nil && exec != nil
+//@   requires e.Delay != 0
+//@   requires 0 < e.Delay && (e.maxDelay != 0 ==> e.Delay <= e.maxDelay && e.maxDelay <= 35184372088832 && e.delayFactor >= 1 && e.delayFactor <= 65536)
+//@   requires e.lastDelay == 0 || (0 < e.lastDelay && (e.maxDelay != 0 ==> e.lastDelay <= e.maxDelay))
+//@   ext retries := ret(exec.Retries, 1)
+//@   let L0 := old(e.lastDelay)
+//@   let backoff := L0 != 0 && retries >= 1 && e.maxDelay != 0
+//@   ensures [C13.fixed] !backoff ==> result == e.Delay && e.lastDelay == e.Delay
+//@   ensures [C13.backoff.value] backoff ==> result == e.lastDelay && e.lastDelay == min(f32toint(tof32(L0) * e.delayFactor), e.maxDelay)
+//@   ensures [C13.backoff.max] backoff ==> e.lastDelay <= e.maxDelay && e.lastDelay > 0
+//@   ensures [C13.backoff.monotone] backoff ==> e.lastDelay >= L0
+//@   modifies e.lastDelay, calls(exec.Retries)
+//@   witness lastDelay := old(e.lastDelay)
+//@   witness delay := e.Delay
+//@   witness maxDelay := e.maxDelay
+//@   witness retries := retries
+//@   witness factor := e.delayFactor
+
+// random delay: float64 arithmetic by the real rounding model
+//@ func (*executor).getFixedOrRandomDelay case random
+//@   requires e != nil && e.retryPolicy != nil && e.config != nil && e.BaseDelayablePolicy != nil && exec != nil
+//@   requires e.Delay == 0
+//@   requires (e.delayMin != 0 && e.delayMax != 0) ==> 0 < e.delayMin && e.delayMin <= e.delayMax && e.delayMax <= 9007199254740992
+//@   ensures [C13.random.range] (e.delayMin != 0 && e.delayMax != 0) ==> e.delayMin <= result && result <= e.delayMax
+//@   ensures [C13.random.none] !(e.delayMin != 0 && e.delayMax != 0) ==> result == 0
+//@   ensures [C13.random.lastdelay_untouched] e.lastDelay == old(e.lastDelay)
+//@   modifies nothing
+
+// what callers may rely on whatever the configuration (proved case by case above)
+//@ func (*executor).getFixedOrRandomDelay
+//@   props C13
+//@   requires e != nil && e.retryPolicy != nil && e.config != nil && e.BaseDelayablePolicy != nil && exec != nil
+//@   ensures true
+//@   modifies e.lastDelay, calls(exec.Retries)
+//@   summary
+
+//@ func (*executor).adjustForJitter case jitter
+//@   requires e != nil && e.retryPolicy != nil && e.config != nil
+//@   requires e.jitter != 0
+//@   requires 0 < e.jitter && e.jitter <= 9007199254740992 && delay >= -4503599627370496 && delay <= 4503599627370496
+//@   ensures [C13.jitter.bound] result - delay <= e.jitter && delay - result <= e.jitter
+//@   modifies nothing
+
+//@ func (*executor).adjustForJitter case nojitter
+//@   requires e != nil && e.retryPolicy != nil && e.config != nil
+//@   requires e.jitter == 0 && e.jitterFactor == 0
+//@   ensures [C13.nojitter] result == delay
+//@   modifies nothing
+
+//@ func (*executor).adjustForJitter case jitterfactor
+//@   mode bv64
+//@   requires e != nil && e.retryPolicy != nil && e.config != nil
+//@   requires e.jitter == 0 && e.jitterFactor != 0
+//@   requires e.jitterFactor > 0 && e.jitterFactor <= 1 && 0 < delay && delay <= 35184372088832
+//@   ensures [C13.jitterfactor.nonnegative] result >= 0
+//@   ensures [C13.jitterfactor.bound] result <= 2*delay + delay/4194304 + 2
+//@   modifies nothing
